@@ -35,6 +35,7 @@ func splitRace(o Op) (w Op, sub Op) {
 			sub.Opts = append(sub.Opts, "rm="+t[4:])
 		case t == "suo":
 			sub.Opts = append(sub.Opts, "uo")
+		case strings.HasPrefix(t, "cname="):
 		default:
 			w.Opts = append(w.Opts, t)
 		}
@@ -347,16 +348,58 @@ func (r *real) raceC(o Op) string {
 	if !p.wait() {
 		return "!write-timeout"
 	}
-	oldDeliv := r.deliveries(p.sends())
 	select {
 	case <-ready:
 	case <-time.After(waitBound):
 		return "!subscriber-did-not-return"
 	}
+	r.unregistered = 1
+	oldDeliv := r.deliveries(p.sends())
+	r.unregistered = 0
 	nSeed := r.seedCount(sub)
 	r.register(sb)
 	seed := showList(sb.take(nSeed))
 	return fmt.Sprintf("parked=true blocked=%v seed=%s %s | %s", st == "blocked", seed, p.head(), joinDeliv(oldDeliv, name))
+}
+
+// raceE: the write is parked inside Bus.Send, right after it took its snapshot of the listeners, while
+// the subscription `cname` - which IS in the snapshot - is cancelled (its Pull has ended and the bus has
+// closed its listener before the Send goes on). The Send meets a listener that died under its hands: it
+// must skip it, serve every other listener of the snapshot exactly once, and collect the dead one. A
+// write that announces nothing never reaches the bus: the cancellation happens on an idle bus.
+func (r *real) raceE(o Op) string {
+	w, _ := splitRace(o)
+	cancelOp := Op{Op: "unsub", Opts: []string{"name=" + optOf(o, "cname")}}
+	armedPoint.Store("bus.send.afterSnapshot")
+	p := r.startWrite(w)
+	parked := false
+	select {
+	case <-parkedCh:
+		parked = true
+	case <-p.done:
+		armedPoint.Store("")
+	case <-time.After(2 * waitBound):
+		armedPoint.Store("")
+		return "!write-timeout"
+	}
+	un := r.unsubscribe(cancelOp)
+	if parked {
+		releaseCh <- struct{}{}
+		if !p.wait() {
+			return "!write-timeout"
+		}
+	}
+	if un != "ok" {
+		return un
+	}
+	return fmt.Sprintf("parked=%v %s | %s", parked, p.head(), r.deliveries(p.sends()))
+}
+
+// raceeOp wraps a write and the name of the subscription cancelled during its Send into a scenario op.
+func raceeOp(w Op, cname string) Op {
+	o := Op{Op: "racee", ID: w.ID, Msg: w.Msg, Opts: append([]string(nil), w.Opts...)}
+	o.Opts = append(o.Opts, "w="+w.Op, "cname="+cname)
+	return o
 }
 
 // splitRaced separates a raced op into the Delete that is held after its first read and the write
